@@ -30,6 +30,8 @@ def run(tier, seed, replay=None):
         sub = {
             "offsets": {"seed": seed, "start": 1000, "commands": 20, "idles": [6], "idle_ms": 1200, "drops": [12], "drop_skew": 0, "frags": [],
                         "quiet_ms": 1500, "trace": sc.path("sub-offsets.ndjson"), "budget_ms": 30000},
+            "fanin": {"seed": seed, "n": 3, "p": 1, "refusals": [0, 3, 1], "resumable": [False, False, False], "policy": "high", "commands": 6, "rdb_keys": 3,
+                      "resume": True, "trace": sc.path("sub-fanin.ndjson")},
             "fs": {"seed": seed, "trace": sc.path("sub-fs.ndjson"), "cases": [
                 {"id": 1, "cfg": {"mode": "sync", "parallel": 2, "tdb": -1, "key_exists": "rewrite", "target_replace": True, "big_threshold": 30, "target": {"version": "5.0.7"}, "sched": "free"},
                  "pre": [{"db": 0, "key": "k1", "kind": "string"}],
